@@ -51,7 +51,7 @@ package admission
 //@ func (*WebhookHandler).serveReviewRequest
 //@   prop C14
 //@   requires r != nil
-//@   modifies lastResp, lastErr, lastEvent, lastReviewed, lastReviewResp, lastReviewErr, json.nEncoded, json.lastEncoded, object_patch.nDocs, object_patch.docLog, object_patch.lastDecErr
+//@   modifies lastResp, lastErr, lastEvent, lastReviewed, lastReviewResp, lastReviewErr, json.nEncoded, json.lastEncoded, json.nDecoded, json.decodedInto, json.lastDecErr
 //@   ensures [at-most-one-answer] json.nEncoded == old(json.nEncoded) || json.nEncoded == old(json.nEncoded) + 1
 //@   ensures [uid-echoed]      json.nEncoded == old(json.nEncoded) + 1 ==> dyntype(json.lastEncoded, v1.AdmissionReview)
 //@        && json.lastEncoded.(v1.AdmissionReview).Response != nil && json.lastEncoded.(v1.AdmissionReview).Response.UID == lastReviewed.UID
